@@ -314,6 +314,41 @@ theorem shape_preserved_mapped (ps : Path) (params : List (String × String × T
 
 example (xs ys : List J) (R : J → J → Prop) (h : All2 R xs ys) : ys.length = xs.length := h.length_eq
 
+/-! ### the record stays valid under a crash or an I/O fault -/
+
+/-- Regenerated obligations: on the post-processing path the `_outs` record is
+written exactly once, with `Metadata.WriteAtomic`, and `writeAtomicAt` writes a
+temp file and then renames it over the target.  Replacing the call by an
+in-place writer (`Write`, `WriteRaw`, …) or re-ordering the steps breaks this. -/
+theorem outs_rewrite_is_atomic :
+    Gen.postProcessOutsWriters.map writerOfName = [some .atomic] ∧ Gen.writeAtomicSteps = atomicSteps := by
+  decide
+
+/-- With the writer found in the source, however far the single write of the
+record gets before a crash or an I/O error, the record file holds either the
+complete old record or the complete new one — never a fragment.  (Under the
+stated OS assumption; the harness checks the same on the real code by running
+post-processing under RLIMIT_FSIZE and under kill -9.) -/
+theorem record_old_or_new (old new : List UInt8) (k : Nat) :
+    ∀ w ∈ Gen.postProcessOutsWriters.filterMap writerOfName,
+      recordAfterFault w old new k = old ∨ recordAfterFault w old new k = new := by
+  intro w hw
+  have h : Gen.postProcessOutsWriters.filterMap writerOfName = [.atomic] := by decide
+  rw [h] at hw
+  rw [List.mem_singleton.mp hw]
+  simp only [recordAfterFault]
+  split
+  · exact Or.inr rfl
+  · exact Or.inl rfl
+
+/-- Negative witness: an in-place writer cut after 3 bytes leaves a fragment
+that is neither the old nor the new record. -/
+theorem inplace_writer_tears_record :
+    recordAfterFault .inplace [0x7B, 0x7D] [0x7B, 0x22, 0x61, 0x22, 0x3A, 0x31, 0x7D] 4 = [0x7B, 0x22, 0x61] ∧
+    recordAfterFault .inplace [0x7B, 0x7D] [0x7B, 0x22, 0x61, 0x22, 0x3A, 0x31, 0x7D] 4 ≠ [0x7B, 0x7D] ∧
+    recordAfterFault .inplace [0x7B, 0x7D] [0x7B, 0x22, 0x61, 0x22, 0x3A, 0x31, 0x7D] 4 ≠
+      [0x7B, 0x22, 0x61, 0x22, 0x3A, 0x31, 0x7D] := by decide
+
 /-! ### F5: multi-dimensional arrays (negative witness for the code before the repair) -/
 
 /-- With the element type the old `moveOutArrayDir` used (`dimAware = false`),
